@@ -340,6 +340,7 @@ def run(chk):
     _timeoutarm_rule(chk, prog)
     _chunkmode_rule(chk, prog)
     _cloexec_rule(chk, prog)
+    _exitstatus_rule(chk, prog)
 
 
 def _solewaiter_rule(chk, prog):
@@ -947,3 +948,50 @@ def selfpipe_write_end_nonblocking(prog):
     if ex is None:
         return mode, None, calls[0]
     return mode, mode not in ex, calls[0]
+
+
+def _exitstatus_rule(chk, prog):
+    """JANET_PROC_WAITED says "this process has been reaped": (p :return-code) answers from proc->return_code from
+    then on and a second os/proc-wait is refused.  The flag and the status therefore go together - also when the fiber
+    that asked has meanwhile given up (deadline, cancel): the child is reaped exactly once, and a status dropped then is
+    gone for good."""
+    rule = "C16-EXITSTATUS"
+    chk.rule(rule, "every path that marks a process as waited (JANET_PROC_WAITED) has stored its exit status in return_code")
+    tu = prog.tus["os.c"]
+    n = 0
+    for fn in tu.funcs.values():
+        def sets_waited(x):
+            return x.k == "asg" and x.op == "|=" and x.kids[0].k == "mem" and x.kids[0].field == "flags" and \
+                any("JANET_PROC_WAITED" in y.macro_names() or (y.k == "ref" and y.name == "JANET_PROC_WAITED") for y in x.kids[1].walk())
+
+        def stores_rc(x):
+            return x.k == "asg" and x.op == "=" and x.kids[0].k == "mem" and x.kids[0].field == "return_code"
+        if not any(sets_waited(x) for x in fn.nodes):
+            continue
+        n += 1
+        chk.instance(rule)
+        chk.analysed(fn)
+
+        def transfer(st, x):
+            if sets_waited(x):
+                st = st | {"waited"}
+            if stores_rc(x):
+                st = st | {"rc"}
+            return st
+        IN, OUT, T = flow.forward_paths(fn, frozenset(), transfer)
+        bad = None
+        for b, kind in flow.exits(fn):
+            if b.id not in OUT:
+                continue
+            for ps in OUT[b.id]:
+                if "waited" in ps and "rc" not in ps:
+                    bad = b
+        if bad is None:
+            chk.ok(rule, "%s: WAITED and return_code are set together" % fn.name)
+        else:
+            last = bad.elems[-1] if bad.elems else fn
+            chk.violation(rule, "os.c", fn.name, "return_code", last.loc,
+                          "%s can finish (near %s) with JANET_PROC_WAITED set and return_code not stored: when the waiting fiber has gone (deadline, "
+                          "cancel) before the child exits, the child is reaped but its status is lost - (p :return-code) stays nil and a second "
+                          "os/proc-wait is refused" % (fn.name, last.loc))
+    chk.floor(rule, 1, n)
